@@ -108,7 +108,7 @@ ROUTES = {
     "http://sim.example/doc.nt": (200, {"Content-Type": "application/n-triples"}, DOC_NT),
     "http://sim.example/moved": (302, {"Location": "http://sim.example/doc.ttl"}, b""),
 }
-MISC = ["len", "contains", "contains-foreign", "triples-foreign-context", "graphs", "contexts", "quads", "value", "items", "cbd", "all_nodes", "connected", "isomorphic", "to_isomorphic", "to_canonical_graph", "graph_diff", "skolemize", "de_skolemize", "collection", "slice", "subjects", "objects", "path", "iter", "get_context-read", "bool", "n3", "eq"]
+MISC = ["len", "contains", "contains-foreign", "triples-foreign-context", "graphs", "contexts", "quads", "value", "items", "cbd", "all_nodes", "connected", "isomorphic", "to_isomorphic", "to_canonical_graph", "graph_diff", "skolemize", "de_skolemize", "collection", "slice", "subjects", "objects", "path", "iter", "get_context-read", "bool", "n3", "eq", "transitive_objects", "transitive_subjects", "transitiveClosure", "triples_choices", "resource", "subject_predicates", "predicate_objects", "getitem-path", "contexts-triple", "print", "prepared-query", "isomorphic-copy", "subtract", "union-op"]
 
 
 def generate(seed, tier):
@@ -394,6 +394,51 @@ def execute(trace, ctx):
             if w == "skolemize":
                 return ("graph", _gkeys(g0.skolemize())), False
             return ("graph", _gkeys(g0.skolemize().de_skolemize())), False
+        if w == "transitive_objects":
+            return ("v", [key(x) for x in t.transitive_objects(pat[0] or URIRef(EX + "s"), URIRef(P))]), False
+        if w == "transitive_subjects":
+            return ("v", [key(x) for x in t.transitive_subjects(URIRef(P), pat[2] or URIRef(EX + "o"))]), False
+        if w == "transitiveClosure":
+            def nxt(node, g_):
+                return g_.objects(node, URIRef(P))
+
+            return ("v", [key(x) for x in t.transitiveClosure(nxt, pat[0] or URIRef(EX + "s"))]), False
+        if w == "triples_choices":
+            return ("v", _srt(tuple(key(y) for y in x) for x in t.triples_choices((pat[0], [URIRef(P), URIRef(Q)], pat[2])))), False
+        if w == "resource":
+            r = t.resource(URIRef(EX + "s"))
+            return ("v", _srt((key(a.identifier if hasattr(a, "identifier") else a), key(b.identifier if hasattr(b, "identifier") and not isinstance(b, (URIRef, BNode, Literal)) else b)) for a, b in r.predicate_objects())), False
+        if w == "subject_predicates":
+            return ("v", _srt((key(a), key(b)) for a, b in t.subject_predicates(pat[2]))), False
+        if w == "predicate_objects":
+            return ("v", _srt((key(a), key(b)) for a, b in t.predicate_objects(pat[0]))), False
+        if w == "getitem-path":
+            s_ = pat[0] if not isinstance(pat[0], Literal) else None
+            return ("v", _srt(repr(tuple(key(y) for y in x) if isinstance(x, tuple) else key(x)) for x in t[s_ : path_of(op) : None])), False
+        if w == "contexts-triple":
+            if isds and all(x is not None for x in pat):
+                return ("v", _srt(key(c.identifier) for c in top.contexts(pat))), False
+            return ("v", None), False
+        if w == "print":
+            b = io.StringIO()
+            t.print(format="turtle" if not isds else "nquads", out=b)
+            return ("bytes", "turtle" if not isds else "nquads", b.getvalue().encode("utf-8")), False
+        if w == "prepared-query":
+            from rdflib.plugins.sparql.processor import prepareQuery
+
+            pq = prepareQuery(QUERIES[0] % fmt)
+            return norm_rows(t.query(pq)), False
+        if w == "isomorphic-copy":
+            g0 = t if not isds else Graph(store, gname)
+            cp = Graph()
+            for tr in g0:
+                cp.add(tr)
+            return ("v", isomorphic(g0, cp), len(cp)), False
+        if w in ("subtract", "union-op"):
+            g0 = t if not isds else Graph(store, gname)
+            g1 = Graph(store, gid(None))
+            res_g = (g0 - g1) if w == "subtract" else (g0 + g1)
+            return ("graph", _gkeys(res_g)), False
         if w == "slice":
             s_, p_, o_ = pat
             if isinstance(s_, Literal):
